@@ -197,15 +197,12 @@ func (p *StreamPool) getConnection(k key, end bool, ts time.Time, tcp *layers.TC
 	verifYield("getConnection:before-insert")
 	p.mu.Lock()
 	defer p.mu.Unlock()
-	conn, half, rev = p.newConnection(k, s, ts)
-	conn2, half2, rev2 := p.getHalf(k)
-	if conn2 != nil {
-		if conn2.key != k {
-			panic("FIXME: other dir added in the meantime...")
-		}
-		// FIXME: delete s ?
+	if conn2, half2, rev2 := p.getHalf(k); conn2 != nil {
+		// Another assembler added this connection, in either direction, since
+		// the lookup above: use its entry, the stream just created is dropped.
 		return conn2, half2, rev2
 	}
+	conn, half, rev = p.newConnection(k, s, ts)
 	p.conns[k] = conn
 	return conn, half, rev
 }
